@@ -14,8 +14,31 @@ pub fn check(tape: &[u32], st: &mut Stats) -> Result<(), String> {
     let c = gen_state(&mut t, false);
     let mut rw_steps = 0u32;
     let mut stats_rw = (0u64, 0u64, 0u64);
+    // Half of the cases never empty the observer themselves (they only use get_mem_accesses), so that
+    // the clearing done by step_in itself is what keeps one step's records out of the next.
+    let keep = tape.len() % 2 == 1;
+    let mut seen: BTreeSet<u16> = BTreeSet::new();
+    let (mut all_r, mut all_w, mut all_c): (BTreeSet<u16>, BTreeSet<u16>, BTreeSet<u16>) = Default::default();
+    let mut executed = 0usize;
+    let mut mcr_seen = false;
+    let mcr_ports: Vec<u16> = std::iter::once(MCR_ADDR).chain(c.spec.extra_iregs.iter().filter(|(_, i)| matches!(i, IReg::Mcr)).map(|(p, _)| *p)).collect();
     let res = lockstep(&c, &mut Stats::default(), &mut |rig, r, _out| {
-        let acc: Vec<(u16, lc3_ensemble::sim::observer::AccessSet)> = rig.sim.observer.take_mem_accesses().collect();
+        executed += 1;
+        // run_while sets the MCR's run bit, step_in does not: a case that looks at the MCR is not the same execution in both modes
+        mcr_seen |= r.info.io_touched.iter().chain(r.info.reads.iter()).chain(r.info.writes.iter()).any(|a| mcr_ports.contains(a));
+        for a in r.info.reads.iter().chain(r.info.writes.iter()) {
+            seen.insert(*a);
+            seen.insert(a.wrapping_add(1));
+            seen.insert(a.wrapping_sub(1));
+        }
+        all_r.extend(r.info.reads.iter().copied().filter(|a| *a < IO_START));
+        all_w.extend(r.info.writes.iter().copied().filter(|a| *a < IO_START));
+        all_c.extend(r.info.changed.iter().copied().filter(|a| *a < IO_START));
+        let acc: Vec<(u16, lc3_ensemble::sim::observer::AccessSet)> = if keep {
+            seen.iter().map(|a| (*a, rig.sim.observer.get_mem_accesses(*a))).filter(|(_, s)| s.accessed()).collect()
+        } else {
+            rig.sim.observer.take_mem_accesses().collect()
+        };
         let mut reads = BTreeSet::new();
         let mut writes = BTreeSet::new();
         let mut modified = BTreeSet::new();
@@ -73,7 +96,17 @@ pub fn check(tape: &[u32], st: &mut Stats) -> Result<(), String> {
         }
         let _ = rig.sim.read_mem(0x3000, MemAccessCtx { track_access: false, ..rig.sim.default_mem_ctx() });
         let _: Word = before;
-        if rig.sim.observer.take_mem_accesses().next().is_some() {
+        if keep {
+            let after: Vec<(u16, lc3_ensemble::sim::observer::AccessSet)> = seen.iter().chain([probe, 0x3000].iter()).map(|a| (*a, rig.sim.observer.get_mem_accesses(*a))).filter(|(a, s)| s.accessed() && (*a < IO_START || !acc.iter().any(|(b, _)| b == a))).collect();
+            let mut exp: Vec<(u16, lc3_ensemble::sim::observer::AccessSet)> = acc.iter().filter(|(a, _)| *a < IO_START).cloned().collect();
+            let mut after = after;
+            after.sort_by_key(|x| x.0);
+            after.dedup_by_key(|x| x.0);
+            exp.sort_by_key(|x| x.0);
+            if after.iter().map(|(a, s)| (*a, s.read(), s.written(), s.modified())).ne(exp.iter().map(|(a, s)| (*a, s.read(), s.written(), s.modified()))) {
+                return Err("a host access with track_access=false was recorded by the observer".into());
+            }
+        } else if rig.sim.observer.take_mem_accesses().next().is_some() {
             return Err("a host access with track_access=false was recorded by the observer".into());
         }
         Ok(())
@@ -88,6 +121,54 @@ pub fn check(tape: &[u32], st: &mut Stats) -> Result<(), String> {
             return Ok(());
         }
     }
+    // the same case as ONE run: the observer must hold the union of the steps' accesses
+    if executed > 1 && mcr_seen {
+        st.class("run-level-skipped:case-touches-the-MCR");
+    } else if executed > 1 {
+        let mut rig2 = build_rig(&c.spec);
+        {
+            let mut q = rig2.plan.lock().unwrap();
+            for i in 0..executed {
+                q.push_back(c.plan[i]);
+            }
+        }
+        // (run_with_limit counts instructions, not steps: interrupt and exception entries are steps that are not counted)
+        let mut n = 0usize;
+        let _ = rig2.sim.run_while(|_| {
+            n += 1;
+            n <= executed
+        });
+        rig2.plan.lock().unwrap().clear();
+        let (mut reads, mut writes, mut modified): (BTreeSet<u16>, BTreeSet<u16>, BTreeSet<u16>) = Default::default();
+        for (a, s) in rig2.sim.observer.take_mem_accesses() {
+            if s.modified() && !s.written() {
+                return Err(format!("after a run of {executed} steps the observer marks x{a:04X} as modified but not written"));
+            }
+            if a >= IO_START {
+                continue;
+            }
+            if s.read() {
+                reads.insert(a);
+            }
+            if s.written() {
+                writes.insert(a);
+            }
+            if s.modified() {
+                modified.insert(a);
+            }
+        }
+        if reads != all_r {
+            return Err(format!("after a run of {executed} steps the observer READ set differs from the union of the steps' reads: only in observer {:04X?}, only in model {:04X?}", reads.difference(&all_r).collect::<Vec<_>>(), all_r.difference(&reads).collect::<Vec<_>>()));
+        }
+        if writes != all_w {
+            return Err(format!("after a run of {executed} steps the observer WRITTEN set differs from the union of the steps' writes: only in observer {:04X?}, only in model {:04X?}", writes.difference(&all_w).collect::<Vec<_>>(), all_w.difference(&writes).collect::<Vec<_>>()));
+        }
+        if !all_c.is_subset(&modified) {
+            return Err(format!("after a run of {executed} steps addresses {:04X?} changed value but are not marked modified by the observer", all_c.difference(&modified).collect::<Vec<_>>()));
+        }
+        st.class("run-level-union-compared");
+    }
+    st.class(if keep { "mode:observer-never-emptied-by-harness" } else { "mode:take-after-each-step" });
     st.class_n("model-reads", stats_rw.0);
     st.class_n("model-writes", stats_rw.1);
     st.class_n("model-changed-writes", stats_rw.2);
@@ -109,13 +190,13 @@ pub fn describe(tape: &[u32]) -> Value {
 pub fn run(ctx: &Ctx) -> Outcome {
     let mut out = Outcome::new(
         "the machine states of C08 (non-strict) stepped in lock step; after every step the observer's READ and WRITTEN sets restricted to non-I/O addresses must equal the reference machine's read/write sets \
-         (fetch, data, indirect pointer, vector entry, stack push/pop), every written address whose value changed must be MODIFIED, MODIFIED must be a subset of WRITTEN on all addresses, and host accesses with track_access=false must leave no trace; \
+         (fetch, data, indirect pointer, vector entry, stack push/pop), every written address whose value changed must be MODIFIED, MODIFIED must be a subset of WRITTEN on all addresses (in half of the cases the harness never empties the observer itself, so that records of an earlier step would show), the same case executed as one run_while call of as many steps must leave the union of the steps' sets, and host accesses with track_access=false must leave no trace; \
          non-trivial = the case contains a step that both reads and writes memory; distinct by tape",
     );
     let cfg = TapeCfg::new(ctx, 6000, 300_000, 400);
     out.shards = cfg.shards;
     out.absorb(tape_search(ctx, "main", &cfg, check, describe));
-    out.essential = vec!["has-read-write-step".into(), "model-reads".into(), "model-writes".into(), "model-changed-writes".into()];
+    out.essential = vec!["has-read-write-step".into(), "run-level-union-compared".into(), "mode:observer-never-emptied-by-harness".into(), "mode:take-after-each-step".into(), "model-reads".into(), "model-writes".into(), "model-changed-writes".into()];
     out
 }
 
